@@ -99,6 +99,10 @@ private:
 public:
   ghost_variable_manager_with_fixed_naming(get_type_fn get_type)
       : m_get_type(get_type) {}
+  // The type function refers to the abstract state that owns the
+  // manager: a state that receives a copy of a manager must install
+  // its own function.
+  void set_type_fn(get_type_fn get_type) { m_get_type = get_type; }
   ghost_variable_manager_with_fixed_naming(const ghost_var_manager_t &o) =
       default;
   ghost_variable_manager_with_fixed_naming(ghost_var_manager_t &&o) = default;
@@ -472,6 +476,7 @@ private:
 public:
   ghost_variable_manager_with_variable_naming(get_type_fn get_type)
       : m_get_type(get_type) {}
+  void set_type_fn(get_type_fn get_type) { m_get_type = get_type; }
   ghost_variable_manager_with_variable_naming(const ghost_var_manager_t &o) =
       default;
   ghost_variable_manager_with_variable_naming(ghost_var_manager_t &&o) =
